@@ -28,9 +28,10 @@ pub fn url_string(u: &Value) -> String {
             s.push('@');
         }
     }
-    s.push_str(gs(u, "host"));
-    if gu(u, "port") != 0 {
-        s.push_str(&format!(":{}", gu(u, "port")));
+    s.push_str(gso(u, "hostText").unwrap_or(gs(u, "host")));
+    let port = guo(u, "portText").unwrap_or(gu(u, "port"));
+    if port != 0 {
+        s.push_str(&format!(":{}", port));
     }
     let path = ga(u, "path");
     if gb(u, "emptypath") {
@@ -304,7 +305,7 @@ struct Hop {
 }
 
 fn proxy_url(p: &Value) -> Option<url::Url> {
-    if p.is_object() {
+    if p.is_object() && gs(p, "sch") != "-" {
         let mut v = p.clone();
         v["emptypath"] = json!(true);
         url_string(&v).parse().ok()
@@ -525,7 +526,7 @@ pub fn run(sc: &Value) -> Vec<String> {
         }
         let _ = Hop { ci };
         let dial = c.dial.clone().unwrap();
-        let mut connect = json!({"present":false,"target":"-","agreed":false,"auth":"-","sni":"-","leaks":0,"hostHdr":"-","afterLen":0,"earlyBytes":0,"status":0});
+        let mut connect = json!({"present":false,"target":"-","method":"-","agreed":false,"auth":"-","sni":"-","leaks":0,"hostHdr":"-","afterLen":0,"earlyBytes":0,"status":0,"nhdr":0,"isHello":false});
         let mut reqbytes: &[u8] = &c.written;
         let mut tunnel_clear: &[u8] = &[];
         if c.written.starts_with(b"CONNECT ") {
@@ -567,13 +568,30 @@ pub fn run(sc: &Value) -> Vec<String> {
         let qstr = gs(&turl, "q");
         let observed_pairs: Vec<(String, String)> = if qstr == "-" { vec![] } else { url::form_urlencoded::parse(qstr.as_bytes()).map(|(a, b)| (a.to_string(), b.to_string())).collect() };
         let qmatch = observed_pairs.iter().rev().zip(qpairs.iter().rev()).take_while(|(a, b)| a == b).count();
-        let body_lcp = lcp(&pr.body, &expected_body);
+        let mut body_lcp = lcp(&pr.body, &expected_body);
+        let mut body_len = pr.body.len();
+        if gs(&body_spec, "kind") == "multipart" {
+            // the boundary is random: compare the decoded parts instead of raw octets
+            let ct = hv("content-type").first().cloned().unwrap_or_default();
+            let ok = crate::mp::boundary_of(&ct).map(|b| {
+                let d = crate::mp::decode(&pr.body, &b);
+                d.error.is_none() && d.closed && d.parts.len() == 2
+                    && d.parts[0].name == "t" && d.parts[0].data == b"text value" && d.parts[0].filename.is_none()
+                    && d.parts[1].name == "f" && d.parts[1].filename.as_deref() == Some("f.bin") && d.parts[1].data == expected_body
+            }).unwrap_or(false);
+            if ok {
+                body_len = expected_body.len();
+                body_lcp = expected_body.len();
+            } else {
+                body_lcp = 0;
+            }
+        }
         let clv: Vec<i64> = hv("content-length").iter().map(|s| s.parse::<i64>().unwrap_or(-1)).collect();
         out.push(json!({"ev":"hop","i":ci + 1,"dial":{"sch":dial.0,"host":dial.1.to_ascii_lowercase(),"port":dial.2},"connect":connect,
             "req":{"parsed":pr.ok,"method":pr.method,"form": if reqbytes.is_empty() {"none"} else if pr.target.contains("://") {"absolute"} else if pr.target.starts_with('/') {"origin"} else {"other"},
                 "url":turl,"hosts":hv("host"),"conn":hv("connection").iter().map(|s| s.to_ascii_lowercase()).collect::<Vec<_>>(),"clv":clv,
                 "te":hv("transfer-encoding").iter().map(|s| s.to_ascii_lowercase()).collect::<Vec<_>>(),
-                "framing":pr.framing,"bodyLen":pr.body.len(),"bodyLcp":body_lcp,"midZero":pr.mid_zero,"complete":pr.complete,"trailing":pr.trailing,
+                "framing":pr.framing,"bodyLen":body_len,"rawBodyLen":pr.body.len(),"bodyLcp":body_lcp,"midZero":pr.mid_zero,"complete":pr.complete,"trailing":pr.trailing,
                 "kept":kept,"ncaller":callers.len(),"qmatch":qmatch,"qpairs":qpairs.len(),"version":pr.version,
                 "auth":hv("authorization"),"proxyAuth":hv("proxy-authorization").len(),"ctype":hv("content-type"),"nchunks":pr.chunks.len(),
                 "leaks":marker_count(reqbytes, &secrets)},
